@@ -163,3 +163,47 @@ def rule_d4(ctx, F):
         ctx.check("C05.D4", "side-and-state-keys-swapped-unconditionally", ok, fn=path, file=fn["file"], line=fn["span"][0],
                   what="push/pop must xor the side key exactly once and swap the state key around the stack change on every path",
                   expected="[state-key, STACK, state-key] and one side-key among the top-level statements", found=seq)
+
+
+def thorough(ctx):
+    """Deeper structured dependencies: no capture (3 piece keys + the empty key) nor castling (4 piece keys) pattern, together with
+    the side key and a state change, maps a position to its parent's hash."""
+    F = ctx.facts
+    ks = keys(F)
+    vals = [v for _, v in ks]
+    side, empty = vals[0], vals[1]
+    st = vals[2:258]
+    pc = vals[258:]
+    state_pairs = {0}
+    for i in range(256):
+        for j in range(i + 1, 256):
+            state_pairs.add(st[i] ^ st[j])
+    hits = []
+    n = 0
+    for a in range(12):
+        for b in range(12):
+            if (a < 6) == (b < 6):
+                continue     # captures take an enemy piece
+            for s in range(64):
+                ka = pc[s * 12 + a]
+                for e in range(64):
+                    if e == s:
+                        continue
+                    n += 1
+                    x = ka ^ pc[e * 12 + a] ^ pc[e * 12 + b] ^ empty ^ side
+                    if x in state_pairs:
+                        hits.append((a, b, s, e))
+    ctx.extra["capture_patterns"] = n
+    ctx.check("C05.D5", "no-capture-cancels", not hits, file="src/chess/zobrist.rs",
+              what="a capture together with a state change maps a position to its parent's hash", found=hits[:3])
+    # castling: king and rook of one colour move on the home row
+    hits = []
+    for colour, row in ((0, 0), (6, 7)):
+        K, R = 5 + colour, 1 + colour
+        for (k0, k1, r0, r1) in ((4, 6, 7, 5), (4, 2, 0, 3)):
+            sq = lambda c: row * 8 + c
+            x = pc[sq(k0) * 12 + K] ^ pc[sq(k1) * 12 + K] ^ pc[sq(r0) * 12 + R] ^ pc[sq(r1) * 12 + R] ^ side
+            if x in state_pairs:
+                hits.append((colour, k1))
+    ctx.check("C05.D5", "no-castling-cancels", not hits, file="src/chess/zobrist.rs",
+              what="castling together with the rights it loses maps a position to its parent's hash", found=hits)
